@@ -1200,14 +1200,23 @@ impl<'a> Visitor<'a> {
 
         let body = mem::take(&mut at_root_rule.body);
 
-        self.with_scope_for_at_root::<SassResult<()>, _>(inner_copy, &query, |visitor| {
-            for stmt in body {
-                let result = visitor.visit_stmt(stmt)?;
-                debug_assert!(result.is_none());
-            }
+        let includes_unknown_at_rule = included
+            .iter()
+            .any(|&node| matches!(*self.css_tree.get(node), Some(CssStmt::UnknownAtRule(..))));
 
-            Ok(())
-        })?;
+        self.with_scope_for_at_root::<SassResult<()>, _>(
+            inner_copy,
+            &query,
+            includes_unknown_at_rule,
+            |visitor| {
+                for stmt in body {
+                    let result = visitor.visit_stmt(stmt)?;
+                    debug_assert!(result.is_none());
+                }
+
+                Ok(())
+            },
+        )?;
 
         Ok(None)
     }
@@ -1216,6 +1225,7 @@ impl<'a> Visitor<'a> {
         &mut self,
         new_parent_idx: Option<CssTreeIdx>,
         query: &AtRootQuery,
+        includes_unknown_at_rule: bool,
         callback: F,
     ) -> T {
         let old_parent = self.parent;
@@ -1242,8 +1252,10 @@ impl<'a> Visitor<'a> {
             self.flags.in_keyframes()
         };
 
-        // todo:
-        // if self.flags.in_unknown_at_rule() && !included.iter().any(|parent| parent is CssAtRule)
+        let was_in_unknown_at_rule = self.flags.in_unknown_at_rule();
+        if !includes_unknown_at_rule {
+            self.flags.set(ContextFlags::IN_UNKNOWN_AT_RULE, false);
+        }
 
         let res = self.with_scope(false, true, callback);
 
@@ -1260,6 +1272,8 @@ impl<'a> Visitor<'a> {
         }
 
         self.flags.set(ContextFlags::IN_KEYFRAMES, was_in_keyframes);
+        self.flags
+            .set(ContextFlags::IN_UNKNOWN_AT_RULE, was_in_unknown_at_rule);
 
         res
     }
